@@ -279,6 +279,30 @@ func TestVerifC12_Retransmit(t *testing.T) {
 	})
 }
 
+// TestVerifC12_ManyRetransmissions: one message retransmitted 256..320 times in a row (the broker accepts every connection
+// and loses the PUBLISH or its acknowledgement every time): every single retransmission must be identical and carry DUP=1.
+func TestVerifC12_ManyRetransmissions(t *testing.T) {
+	vRun(t, "C12", vOpts{CurFile: true, ReplayReps: 1}, func(rt *rapid.T) e4Case {
+		c := e4Case{Cfg: e4Config{SessionKept: rapid.Bool().Draw(rt, "kept"), MethodB: rapid.Bool().Draw(rt, "methodB"), BaseUs: 50, MaxUs: 100}}
+		q := rapid.IntRange(1, 2).Draw(rt, "qos")
+		c.Steps = []e4Step{{Kind: "connect"}, {Kind: "pub", QoS: q, Topic: "t/a", Retain: rapid.Bool().Draw(rt, "retain"), Idx: 1}}
+		if rapid.Bool().Draw(rt, "fixID") {
+			c.Steps[1].ID = 40001
+		}
+		n := rapid.IntRange(257, 320).Draw(rt, "cuts")
+		after := rapid.Bool().Draw(rt, "after")
+		for k := 1; k <= n; k++ {
+			c.Faults = append(c.Faults, e4Fault{Kind: "cutType", Conn: k, Type: rtPublish, Nth: 1, After: after && q == 1})
+		}
+		return c
+	}, func(tb rapid.TB, c e4Case) {
+		e4Check(tb, "C12", c, e4OracleC12, func(r *e4Result) (bool, []string) {
+			n := e4MaxTransmissions(r)
+			return n >= 257, []string{"c12:many-retransmissions"}
+		})
+	})
+}
+
 // TestVerifC05_ViaRetry: packets emitted through the retrying client (first, deferred and
 // re-transmitted requests) are well-formed and carry exactly the submitted fields.
 func TestVerifC05_ViaRetry(t *testing.T) {
